@@ -202,7 +202,7 @@ func TestVerif_C11_SelectedPairSlowHandlerAcrossRestart(t *testing.T) {
 			_ = a.Restart("", "")
 		}
 		close(release)
-		deadline := time.Now().Add(5 * time.Second)
+		deadline := time.Now().Add(20 * time.Second)
 		for {
 			mu.Lock()
 			n := len(log)
